@@ -24,7 +24,9 @@ def unique_cell(kind, r, c):
     return f'w{r}x{c}'
 
 
-def layout_lines(ops_rows, n_spines, rng=None):
+def layout_lines(ops_rows, n_spines, rng=None, dense=0):
+    """dense=0: one data row after every operator row; 1: operator rows directly follow each other; 2: a global comment
+    between consecutive operator rows."""
     types = ['**kern' if i % 2 == 0 else '**text' for i in range(n_spines)]
     lines = [('s', list(types))]
     paths = list(range(n_spines))
@@ -41,11 +43,14 @@ def layout_lines(ops_rows, n_spines, rng=None):
             cells.append(t)
         lines.append(('s', cells))
     data()
-    for row in ops_rows:
+    for k, row in enumerate(ops_rows):
         lines.append(('s', list(row)))
         paths = [s for s, _ in SP.next_paths(list(row), paths)]
-        if paths:
+        last = k == len(ops_rows) - 1
+        if paths and (dense == 0 or last):
             data()
+        elif paths and dense == 2:
+            lines.append(('g', f'!!between operator rows {k}'))
     if paths:
         lines.append(('s', ['*-'] * len(paths)))
     return lines, types
@@ -224,8 +229,8 @@ def run(ctx: Ctx):
     from ..monitors import treecontract
     treecontract.install()
     shard_i, shard_n = ctx.shard if ctx.shard else (0, 1)
-    ctx.rule = ('(a) every spine-operator layout of the spine-path model up to the stated depth/width, one data row after '
-                'every operator row, unique cell texts; (b) random deeper documents of the C01 generator (splits, joins, '
+    ctx.rule = ('(a) every spine-operator layout of the spine-path model up to the stated depth/width, in three renderings (a data row after '
+                'every operator row / operator rows directly consecutive / a global comment between them), unique cell texts; (b) random deeper documents of the C01 generator (splits, joins, '
                 'early terminators, comments, blank lines, hostile cell text incl. quotes/commas/spaces/non-ASCII); '
                 '(c) one surplus cell appended to a random line. Oracle: stages, nodes per cell, token text, parent link, '
                 'header node and spine id compared with the model; tree-shape invariant and add_node contract. '
@@ -253,6 +258,11 @@ def run(ctx: Ctx):
             case = {'kind': 'layout', 'ops': [list(r) for r in rows], 'spines': sp[0]}
             run_case(ctx, case, lines, types, nontrivial=nontriv)
             ctx.cls('layout')
+            if len(rows) >= 2:
+                for dense in (1, 2):
+                    dl, _ = layout_lines(rows, sp[0], dense=dense)
+                    run_case(ctx, dict(case, dense=dense), dl, types, nontrivial=nontriv)
+                    ctx.cls('layout_consecutive_operator_rows' if dense == 1 else 'layout_comment_between_operator_rows')
             if cnt % 7 == 0:
                 hl, _ = layout_lines(rows, sp[0], rng=rng)
                 run_case(ctx, dict(case, hostile=True), hl, types, nontrivial=True)
@@ -298,7 +308,7 @@ def replay(ctx, w):
     elif case.get('kind') == 'layout':
         import random
         lines, types = layout_lines([tuple(r) for r in case['ops']], case['spines'],
-                                    rng=random.Random(1) if case.get('hostile') else None)
+                                    rng=random.Random(1) if case.get('hostile') else None, dense=case.get('dense', 0))
         run_case(ctx, case, lines, types)
         surplus_case(ctx, case, lines, random.Random(2))
     print(w.get('text', case.get('text', '')))
